@@ -247,6 +247,7 @@ class Conv1d(nn.Conv1d):
             self.padding,
             self.dilation,
             self.groups,
+            constraint=self.constraint,
         )
 
 
